@@ -7,8 +7,9 @@ def run(ctx):
     tier = "quick" if ctx.quick else "thorough"
     ctx.tlc_must_pass("MC_C02", cfg="MC_C02" if ctx.quick else "MC_C02_thorough", workers=16, heap="6g")
     npts = 0; nok = 0; ntab = 0
-    for cfgname in ("A", "B"):
-        b = ctx.build("plain", cfgname); exe = ctx.harness(b)
+    # N: configuration A built the way meson's release build type builds it (NDEBUG defined, for the table generator too), at the quick sampling density
+    for cfgname in ("A", "B", "N"):
+        b = ctx.build("ndebug" if cfgname == "N" else "plain", "A" if cfgname == "N" else cfgname); exe = ctx.harness(b)
         facts = ctx.facts(b, ["macros", "names", "scalar", "spline", "compton", "kissel"], sub="facts" + cfgname)
         # elements are dealt round-robin to NCPU harness processes and as many single-worker TLC JVMs
         def one(i):
@@ -16,12 +17,12 @@ def run(ctx):
             with open(out, "w") as f: pass
             for Z in range(-1 + i, 123, NCPU):
                 tmp = out + ".z"
-                ctx.run_harness(exe, ["c02", Z, Z, tier], tmp)
+                ctx.run_harness(exe, ["c02", Z, Z, "quick" if cfgname == "N" else tier], tmp)
                 with open(out, "a") as f:
                     for l in open(tmp):
                         # configuration B only adds the Kissel sub-shell tables: the other quantities were judged in configuration A
                         if cfgname == "B" and '"q":"CSb_Photo_Partial"' not in l: continue
-                        if cfgname == "A" and '"q":"CSb_Photo_Partial"' in l and '"shell":0,' not in l and '"shell":-1,' not in l: continue
+                        if cfgname in ("A", "N") and '"q":"CSb_Photo_Partial"' in l and '"shell":0,' not in l and '"shell":-1,' not in l: continue
                         f.write(l)
             return out
         with cf.ThreadPoolExecutor(max_workers=NCPU) as ex: outs = list(ex.map(one, range(NCPU)))
